@@ -313,6 +313,23 @@ def _tree_step(st, a):
 
 
 def _tree_check(st, hist, a):
+    fails = _tree_assert(st)
+    if not fails and len(hist) > 1:
+        # the same history with every query asked after every step (queries are part of an event's life: whatever they
+        # remember must follow the tree as it grows)
+        st2 = _TreeState(len([p for p in st.parent if p is None]))
+        for a_ in hist[1:]:
+            _tree_assert(st2)
+            st2 = _tree_step(st2, a_)
+        for f in _tree_assert(st2):
+            f = dict(f)
+            f["what"] += " (queries were also made after every earlier add_children)"
+            f["check"] += "-after-queries"
+            fails.append(f)
+    return fails
+
+
+def _tree_assert(st):
     ev, parts, parent = st.event, st.parts, st.parent
     fails = []
     it = list(ev)
